@@ -58,6 +58,11 @@ def judge(c, rec, Mismatch, case):
         raise Mismatch('gridding a path inside the grid raised', {'error': c.error, **c.desc})
     if not c.len_ok:
         raise Mismatch('output arrays have different lengths', {'lengths': c.lengths, **c.desc})
+    if c.input_mutated or c.regrid_differs:
+        raise Mismatch('gridding a trajectory changes the caller\'s arrays, so gridding the same '
+                       'trajectory again puts other shares into the cells',
+                       {'arrays_changed': c.input_mutated, 'regrid_differs': c.regrid_differs,
+                        **c.desc})
     M = c.M
     n_seg = len(c.lats) - 1
     for s in range(n_seg):
